@@ -651,4 +651,69 @@ theorem cur_append {sh sh' : Shared} {p : Option Nat} (h0 : sh.pickers.head? = s
   · simp only [Shared.cur, h, List.length_append, List.length_singleton]; omega
   · simp [Shared.pickerAt, h, List.getD_eq_getElem?_getD, hl]
 
+/-! ### `failfast` is fixed when the pick starts -/
+
+theorem tstep_failfast {sh : Shared} {tid : Nat} {t t' : Thread} {o : Option Obs} {b : Bool}
+    (hs : tstep sh tid t b = some (t', o)) : t'.failfast = t.failfast := by
+  unfold tstep at hs
+  dsimp only at hs
+  repeat' split at hs
+  all_goals (first | (simp at hs; done) | (simp at hs; rw [← hs.1]))
+
+theorem pickReturn_failfast (tid : Nat) (t : Thread) (r : PickResult) : (pickReturn tid t r).1.failfast = t.failfast := by
+  cases r <;> simp [pickReturn] <;> split <;> simp_all
+
+/-- no action changes the `failfast` argument of a pick that has started, and picks never disappear -/
+theorem step_failfast {s : Sys} {tid : Nat} {t : Thread} (a : Act) (ht : s.thr tid = some t) :
+    ∃ t', (step s a).1.thr tid = some t' ∧ t'.failfast = t.failfast := by
+  cases a with
+  | update p => simp only [step]; split <;> exact ⟨t, ht, rfl⟩
+  | idle => simp only [step]; split <;> exact ⟨t, ht, rfl⟩
+  | close => simp only [step]; split <;> exact ⟨t, ht, rfl⟩
+  | setSc k st => exact ⟨t, ht, rfl⟩
+  | start i ff =>
+    simp only [step]
+    split
+    · exact ⟨t, ht, rfl⟩
+    · rename_i hn
+      have hi : tid ≠ i := by intro e; subst e; rw [ht] at hn; simp at hn
+      exact ⟨t, by simp [setThr_thr, hi, ht], rfl⟩
+  | ctxExpire i dl =>
+    simp only [step]
+    split
+    · rename_i u hu
+      split
+      · by_cases hi : tid = i
+        · subst hi
+          rw [ht] at hu; simp at hu; subst hu
+          exact ⟨{ t with ctx := if dl then .deadlineExceeded else .canceled }, by simp [setThr_thr], rfl⟩
+        · exact ⟨t, by simp [setThr_thr, hi, ht], rfl⟩
+      · exact ⟨t, ht, rfl⟩
+    · exact ⟨t, ht, rfl⟩
+  | step i b =>
+    simp only [step]
+    split
+    · rename_i u hu
+      split
+      · rename_i t' o hs
+        by_cases hi : tid = i
+        · subst hi
+          rw [ht] at hu; simp at hu; subst hu
+          exact ⟨t', by simp [setThr_thr], tstep_failfast hs⟩
+        · exact ⟨t, by simp [setThr_thr, hi, ht], rfl⟩
+      · exact ⟨t, ht, rfl⟩
+    · exact ⟨t, ht, rfl⟩
+  | pickRet i r =>
+    simp only [step]
+    split
+    · rename_i u hu
+      split
+      · by_cases hi : tid = i
+        · subst hi
+          rw [ht] at hu; simp at hu; subst hu
+          exact ⟨(pickReturn tid t r).1, by simp [setThr_thr], pickReturn_failfast _ _ _⟩
+        · exact ⟨t, by simp [setThr_thr, hi, ht], rfl⟩
+      · exact ⟨t, ht, rfl⟩
+    · exact ⟨t, ht, rfl⟩
+
 end GrpcProofs.Lemmas.PickerWrapper
